@@ -13,7 +13,7 @@ import operator
 import token as tokenlib
 import tokenize
 from collections.abc import Iterable
-from io import BytesIO
+from io import StringIO
 from tokenize import TokenInfo
 from typing import Any, Callable, Generator, Generic, Iterator, TypeVar
 
@@ -116,7 +116,9 @@ class IteratorLookAhead(Generic[S]):
 
 def plain_tokenizer(input_string: str) -> Generator[TokenInfo, None, None]:
     """Standard python tokenizer"""
-    for tokinfo in tokenize.tokenize(BytesIO(input_string.encode("utf-8")).readline):
+    # tokenize text, not bytes: with bytes the tokenizer honours a "coding:" cookie
+    # in the input and looks up (imports) the codec it names
+    for tokinfo in tokenize.generate_tokens(StringIO(input_string).readline):
         if tokinfo.type != tokenlib.ENCODING:
             yield tokinfo
 
